@@ -44,9 +44,38 @@ CLAIMED = {
          NOTE, "DESIGN.md §4 C20"),
 }
 
+CLAIMED.update({
+ "C02": ("provenance / purity (MOD) / control-dependence / sibling-agreement rules over the term index and the two search functions",
+         lvl("add, remove and search use the same term extraction; the read operations of the indexes never write through their receiver; a result is emitted only under a test of Matches(pattern, storedFact); the term extractor covers every container the matcher converts; the returned id is the memory and storage key.", "that terms(pattern) is a subset of terms(fact) for every matching pair, the intersection logic, uniqueness of generated ids, get-after-write values."),
+         NOTE, "DESIGN.md §4 C02"),
+ "C04": ("fan-out ownership / synchronisation analysis of goroutines started in loops, loop-shape rule, gate rule on dispositions",
+         lvl("each concurrently running action owns a freshly allocated bindings map; the goroutines' shared writes are under one mutex allocated outside the spawning loop with WaitGroup Add/Done/Wait in place; every loop iteration that creates child nodes appends exactly one; nodes are complete only on the no-error edge.", "the variable environment seen by scripts, equality of tree / values / side effects, which bindings the condition yields."),
+         NOTE, "DESIGN.md §4 C04"),
+ "C05": ("bottom-up MOD (may-modify) summaries over SSA with alias projection, through the sheens matcher and VTA-resolved interface dispatch",
+         lvl("neither the pattern, the data nor the caller's bindings can be written through by Match / Matches / the matcher wrappers / cast / ISlice / Bind / ExtendBindings / StripQuestionMarks (the last clause of the property only).", "soundness and completeness of matching: the algorithm lives in the sheens dependency and quantifies over data."),
+         NOTE, "DESIGN.md §4 C05"),
+ "C09": ("recursion classification of call-graph SCCs (visited-set class), ordering rule of the ancestor walk, provenance of namespaces and cron keys, who-may-write inventory of package-level variables",
+         lvl("the ancestor walk is bounded by a visited set and visits the receiving location last; every storage call of a state uses its own name; the shared cron keys jobs by location; the set of written package-level variables is a frozen table of process-wide state.", "non-interference of results, that exactly the transitive parents' facts are seen, immediacy of parent changes."),
+         NOTE, "DESIGN.md §4 C09"),
+ "C13": ("recursion classification, type-set data-flow for unchecked assertions, explicit-panic / constant-index inventory with named exceptions, nil-after-error and nil-after-failed-assertion reachability, lock-release-by-plain-call rule, privilege pairing",
+         lvl("every recursive cycle is structural, state-decreasing, bounded or visited-set guarded; no unchecked type assertion, explicit panic or unguarded constant index remains outside a table of named exceptions; no pointer is dereferenced after an only-logged error; no lock released by a plain call encloses code that can panic or leaves rulio's control; granted privileges are always revoked.", "totality in general (other nil dereferences, stack depth of structural recursion on deeply nested input, time bounds), behaviour inside otto and the sheens matcher."),
+         NOTE, "DESIGN.md §4 C13"),
+ "C14": ("path-sensitive error-flow from the JavaScript engine to the work-tree nodes, deferred-recover result rule, channel hand-shake rule, gate rule on dispositions",
+         lvl("every compile / run / export error reaches the caller's error result or the node's disposition and is never turned into success; a recovered interrupt sets the function's error result; the watchdog hand-shake cannot block the caller; nodes are complete only without error.", "that the interrupt stops the engine within a bound, the timeout selection arithmetic, what a finishing script sees."),
+         NOTE, "DESIGN.md §4 C14"),
+ "C16": ("lock-set analysis of the in-memory cron, pairing / control-dependence rules, transaction-scope escape analysis, cross-transaction check-then-act rule, sibling-bucket pairing, key-layout provenance for crolt",
+         lvl("Cron.{Timeline,control,timerTarget} under the cron mutex; remove-then-insert in one critical section on every path; a job is launched only under a comparison with its due time; bolt-owned bytes do not escape their transaction; no decision read in one transaction controls a write in another; jobs<p> and time<p> are written together on every path; variable-width time keys are listed as a known finding.", "exactly-once firing, no-fire-after-Rem while a recurring job runs, restart consistency."),
+         NOTE, "DESIGN.md §4 C16"),
+ "C17": ("lock-set analysis of the cache structures, who-may-call + critical-section + edge rule for the single load, gate rule for caching on success only, ordering rule on the pending flag, constant-argument rule for existence checking",
+         lvl("the cache table and entries are accessed under their locks; OpenLocation is called only from CachedLocation.Get under the entry lock on the no-location-yet edge; miss-and-insert is one critical section; a location is cached only on the no-error edge; Pending is stored before it is consulted; every operation asks for the existence check and a checked, not-created location yields an error.", "independence of results from the TTL, staleness under concurrent release."),
+         NOTE, "DESIGN.md §4 C17"),
+ "C18": ("path-sensitive error-flow inside ProcessRequest and ServeHTTP, provenance of getter results, writer/reader table agreement, default-case rule",
+         lvl("in every /api/loc/* case the error of every getter, System call, inner request and json.Marshal reaches the error result; no System argument derives from a getter's `given` flag; every parameter read as a map is declared json in the decoder table; ServeHTTP routes every error to protest(), which writes 400 first; an unknown URI ends in an error.", "equality of results with direct System calls, escaping, URI normalisation (DWIMURI)."),
+         NOTE, "DESIGN.md §4 C18"),
+})
+
 NOT_APPLICABLE = {
- "C16": "static rules for the cron services are being built in this session (lock-set part exists); not claimed until complete",
- "C03": "query semantics is a denotational, value-level property over all query programs; no structural clause is a necessary condition that static analysis can decide (DESIGN.md §5); a reference evaluator on generated programs is a different technique family",
+ "C03": "query semantics is a denotational, value-level property over all query programs (which bindings are kept, order of concatenation, short-circuit per binding); no structural clause is both decidable from the shape of the code and a necessary condition of the stated semantics (DESIGN.md §5); a reference evaluator compared on generated programs is the right tool and is a different technique family",
 }
 
 def main():
